@@ -38,6 +38,15 @@ def rnd_stamp(rng):
 
 def events(ctx):
     rng = ctx.rng
+    # days related to TODAY (the library's now() runs before every stamp is built): today, and today shifted by the distance
+    # between the CCSDS and the Unix epoch in either direction
+    import datetime as _dt
+    today = (_dt.datetime.now(_dt.timezone.utc) - _dt.datetime(1958, 1, 1, tzinfo=_dt.timezone.utc)).days
+    for d in (today - 1, today, today + 1, today + 4383 - 1, today + 4383, today + 4383 + 1, today - 4383, today + 2 * 4383):
+        if 0 <= d <= 65535:
+            for ms in (0, 1, 43200000, 86399999):
+                yield record("cds.rt", {"st": {"days": d, "ms": ms}, "sfx": []})
+                yield record("cds.add", {"st": {"days": d, "ms": ms}, "td": {"days": 0, "secs": 1, "us": 500}})
     for _ in range(ctx.q(15000, 1000000)):
         yield record("cds.rt", {"st": rnd_stamp(rng), "sfx": [rng.randrange(256)] * rng.choice([0, 0, 3])})
     for _ in range(ctx.q(20000, 1500000)):
